@@ -113,6 +113,76 @@ def linear_space_logs(fn_node):
     return out
 
 
+STABILISERS = {'np.amax', 'np.max', 'np.nanmax', 'max', 'logsumexp', 'scipy.special.logsumexp',
+               'special.logsumexp', 'np.logaddexp.reduce'}
+
+
+def unshifted_exponentials(func):
+    """np.exp(...) calls of a function whose argument is not a difference against a max /
+    logsumexp reduction (after expanding single-definition locals): log-volumes and
+    log-likelihoods span hundreds of e-folds, their bare exponential under- or overflows."""
+    from .cfg import cfg_of
+    cfg = cfg_of(func) if hasattr(func, 'module') else None
+    out = []
+    for c in walk_no_nested(func.node):
+        if not (isinstance(c, ast.Call) and dotted(c.func) in ('np.exp', 'math.exp', 'np.exp2',
+                                                               'np.expm1') and c.args):
+            continue
+        arg = c.args[0]
+        seen = 0
+        while isinstance(arg, ast.Name) and cfg is not None and cfg.has(c) and seen < 4:
+            seen += 1
+            ds = cfg.defs_at(cfg.node_of(c).id, arg.id)
+            if len(ds) != 1:
+                break
+            dn = cfg.nodes[next(iter(ds))]
+            if dn.kind == 'stmt' and isinstance(dn.ast, ast.Assign) and \
+                    len(dn.ast.targets) == 1 and isinstance(dn.ast.targets[0], ast.Name):
+                arg = dn.ast.value
+            else:
+                break
+        ok = False
+        for sub in ast.walk(arg):
+            if isinstance(sub, ast.BinOp) and isinstance(sub.op, ast.Sub) and any(
+                    isinstance(x, ast.Call) and (dotted(x.func) in STABILISERS or
+                                                 (isinstance(x.func, ast.Attribute) and
+                                                  x.func.attr in ('max', 'logsumexp')))
+                    for x in ast.walk(sub.right)):
+                ok = True
+        if isinstance(arg, (ast.Constant,)) or (isinstance(arg, ast.UnaryOp) and
+                                                isinstance(arg.operand, ast.Constant)):
+            ok = True
+        if not ok:
+            out.append(c)
+    return out
+
+
+def rule_N3(ctx, rid='N3', classes=None, floor=1):
+    ctx.rule(rid, 'stabilised exponentials: every np.exp in the package is applied to a '
+             'difference against a max / logsumexp reduction -- log-volumes and '
+             'log-likelihoods are never exponentiated bare (under/overflow turns selections '
+             'and ratios into 0, inf or nan at extreme scales)')
+    n = 0
+    for f in sorted(ctx.program.functions.values(), key=lambda x: x.qualname):
+        if classes is not None and (f.cls is None or f.cls.name not in classes):
+            continue
+        calls = [c for c in walk_no_nested(f.node) if isinstance(c, ast.Call) and
+                 dotted(c.func) in ('np.exp', 'math.exp', 'np.exp2', 'np.expm1')]
+        if not calls:
+            continue
+        bad = unshifted_exponentials(f)
+        n += len(calls)
+        ctx.ob(rid, '%s:stabilised-exp' % f.qualname, not bad,
+               f.where(bad[0]) if bad else f.where(),
+               '%d exponential(s), each of a difference against a max / logsumexp' % len(calls)
+               if not bad else
+               '`%s` exponentiates a log-domain quantity without subtracting a max / logsumexp: '
+               'for very small or very large volumes / likelihoods it is 0 or inf, and whatever '
+               'is selected or weighted by it is wrong' % unparse(bad[0])[:60])
+    ctx.require(n >= floor, 'N3 found only %d exponentials (floor %d)' % (n, floor))
+    return n
+
+
 def rule_N2(ctx, rid='N2'):
     ctx.rule(rid, 'log-volumes stay in log space: no volume getter takes the logarithm of a '
              'product or determinant computed in linear space (which under/overflows for '
